@@ -399,16 +399,21 @@ class Explorer:
         for ai in range(lo, hi):
             act = concretise(pp, world, self.alphabet[ai]) if not self.via_recipe else self.alphabet[ai]
             env.clear_caches(pp)
+            first_changed = None
             if self.repeat:
                 held = {}
                 obs = apply(pp, subs, world, act, held)
                 if obs['ok']:
+                    first = dict(obs['new'])
+                    fp1 = {n: exact_obj(o) for n, o in first.items()}
                     obs = apply(pp, subs, world, act, held)
+                    # the objects that the first call returned are values: the identical second call leaves them alone
+                    first_changed = sorted(n for n, o in first.items() if exact_obj(o) != fp1[n])
             else:
                 obs = (apply_via_recipe if self.via_recipe else apply)(pp, subs, world, act)
             post = commit(world, obs) if obs['ok'] else world
             ctx = {'pp': pp, 'subs': subs, 'k': k, 'case': self.case(hist_idx, act), 'pre_exact': pre_exact,
-                   'path_objects': path_objects or (), 'subs_exact': subs_exact}
+                   'path_objects': path_objects or (), 'subs_exact': subs_exact, 'first_changed': first_changed}
             for m in self.monitors:
                 viols.extend(m(ctx, world, act, obs, post) or ())
             if exact_subs(subs) != subs_exact:
@@ -511,16 +516,20 @@ def replay_case(pp, case, monitors):
     act = case['act']
     pre_exact = exact_world(world)
     subs_exact = exact_subs(subs)
+    first_changed = None
     if case.get('repeat'):
         held = {}
         obs = apply(pp, subs, world, act, held)
         if obs['ok']:
+            first = dict(obs['new'])
+            fp1 = {n: exact_obj(o) for n, o in first.items()}
             obs = apply(pp, subs, world, act, held)
+            first_changed = sorted(n for n, o in first.items() if exact_obj(o) != fp1[n])
     else:
         obs = (apply_via_recipe if case.get('via_recipe') else apply)(pp, subs, world, act)
     post = commit(world, obs) if obs['ok'] else world
     ctx = {'pp': pp, 'subs': subs, 'k': len(history), 'case': case, 'pre_exact': pre_exact, 'path_objects': path_objects,
-           'subs_exact': subs_exact}
+           'subs_exact': subs_exact, 'first_changed': first_changed}
     vs = []
     for m in monitors:
         vs.extend(m(ctx, world, act, obs, post) or ())
